@@ -92,7 +92,7 @@ def run(ctx):
                 if len(samples) < 5 and (c["what"], c["kind"], c["enc"]) not in \
                         [(s["case"]["what"], s["case"]["kind"], s["case"]["enc"]) for s in samples]:
                     samples.append(e)
-    if accepted == 0:
+    if accepted == 0 and not ctx.violations:
         raise Inconclusive("vacuity: the real VerifySig accepted nothing (honest signatures must verify)")
     coverage = {
         "evaluations": counts["verify"],
